@@ -266,9 +266,24 @@ for rel, src in all_src:
             static_fields.append((rel, sm.group(1), "UNKNOWN-tuple", norm(sm.group(2))[:80]))
 
 drop_impls = []
+# (impl header, statements of `fn drop`) — the body is kept so that a `Drop` impl which does anything but
+# free the storage it stands for breaks the obligation in Props/C11.lean
+drop_bodies = []
 for rel, src in all_src:
     for m in re.finditer(r"\bimpl\b[^{;]*\bDrop\s+for\s+[^{;]*", src):
         drop_impls.append(f"{rel}: {norm(m.group(0))}")
+        body = "UNKNOWN"
+        k = src.find("{", m.end() - 1)
+        if k >= 0:
+            e = match_brace(src, k)
+            inner = src[k + 1:e] if e else ""
+            fm = re.search(r"\bfn\s+drop\s*\(\s*&mut\s+self\s*\)\s*\{", inner)
+            if fm:
+                k2 = fm.end() - 1
+                e2 = match_brace(inner, k2)
+                if e2:
+                    body = norm(inner[k2 + 1:e2 - 1])
+        drop_bodies.append((f"{rel}: {norm(m.group(0))}", body))
 
 CALCS = [
     # (prefix, file, struct, borrower field, owner field, storage struct, storage file)
@@ -303,6 +318,8 @@ emit("staticFields", "every struct field under src/ whose type mentions `'static
      "List (String × String × String × String)",
      [f"({lean_str(a)}, {lean_str(b)}, {lean_str(c)}, {lean_str(d)})" for a, b, c, d in static_fields])
 emit("dropImpls", "every `impl Drop for` under src/", "List String", [lean_str(x) for x in drop_impls])
+emit("dropBodies", "every `impl Drop for` under src/ with the statements of its `fn drop`", "List (String × String)",
+     [f"({lean_str(a)}, {lean_str(b)})" for a, b in drop_bodies])
 
 for prefix, rel, struct, borrower, owner, storage, storage_rel in CALCS:
     src = read(rel)
